@@ -19,6 +19,18 @@ import numpy as np
 import z3
 
 
+import threading
+
+
+def guarded_check(solver, *assumptions, limit_s=60.0):
+    """solver.check under z3's own timeout (set by the caller).  A watchdog thread calling ctx.interrupt() was tried and removed: with this z3 build it
+    corrupts memory when algebraic numbers are involved.  Queries that overrun are bounded by the per-case wall-clock limit of the driver instead."""
+    try:
+        return solver.check(*assumptions)
+    except z3.Z3Exception:
+        return z3.unknown
+
+
 class Abort(BaseException):
     """path abandoned (infeasible)"""
 
@@ -138,7 +150,7 @@ class Engine:
 
     def _check(self, *extra):
         t0 = time.time()
-        r = self.solver.check(*extra)
+        r = guarded_check(self.solver, *extra, limit_s=self.timeout_ms / 1000.0 * 1.25 + 5)
         self.stats["solver_s"] += time.time() - t0
         self.stats["feas_queries"] += 1
         return r
@@ -180,7 +192,7 @@ class Engine:
             sa = z3.Solver()
             sa.set("timeout", 5000)
             sa.add(*ab)
-            if sa.check() == z3.unsat:
+            if guarded_check(sa, limit_s=10) == z3.unsat:
                 return False
         except z3.Z3Exception:
             pass
@@ -189,7 +201,7 @@ class Engine:
         self.solver.set("timeout", self.branch_timeout_ms)
         try:
             t0 = time.time()
-            r = self.solver.check(cond)
+            r = guarded_check(self.solver, cond, limit_s=self.branch_timeout_ms / 1000.0 * 2 + 2)
             self.stats["solver_s"] += time.time() - t0
             return r != z3.unsat
         finally:
@@ -244,6 +256,12 @@ class Engine:
         g = goal.t if isinstance(goal, SB) else goal
         if isinstance(g, (bool, np.bool_)):
             g = z3.BoolVal(bool(g))
+        if not _symbols(g):
+            # closed goal over constants (const-mode runs, algebraic literals): the simplifier decides it
+            gs = z3.simplify(g)
+            if z3.is_true(gs):
+                self.stats["queries"] += 1
+                return "unsat", None
         return self.solve(list(extra) + [z3.Not(g)], timeout_ms=timeout_ms, pc_upto=pc_upto)
 
     def solve(self, formulas, timeout_ms=None, with_pc=True, pc_upto=None):
@@ -265,7 +283,7 @@ class Engine:
                 sa = z3.Solver()
                 sa.set("timeout", min(timeout_ms or self.timeout_ms, 20000))
                 sa.add(*ab)
-                if sa.check() == z3.unsat:
+                if guarded_check(sa, limit_s=30) == z3.unsat:
                     self.stats["solver_s"] += time.time() - t0
                     self.stats["queries"] += 1
                     self.stats["abstract_unsat"] = self.stats.get("abstract_unsat", 0) + 1
@@ -298,13 +316,13 @@ class Engine:
                 s1.set("timeout", min(timeout_ms or self.timeout_ms, 10000))
                 s1.add(*keep)
                 s1.add(*fs_[len(base_):])
-                if s1.check() == z3.unsat:
+                if guarded_check(s1, limit_s=20) == z3.unsat:
                     self.stats["solver_s"] += time.time() - t0
                     self.stats["queries"] += 1
                     self.stats["relevance_unsat"] = self.stats.get("relevance_unsat", 0) + 1
                     return "unsat", None
         s.add(*fs_)
-        r = s.check()
+        r = guarded_check(s, limit_s=(timeout_ms or self.timeout_ms) / 1000.0 * 1.25 + 5)
         self.stats["solver_s"] += time.time() - t0
         self.stats["queries"] += 1
         return str(r), (s.model() if r == z3.sat else None)
